@@ -195,6 +195,13 @@ class Real:
             except BaseException:       # noqa
                 pass
         self.state.reinit()
+        # reinit() removes the one hook claw_state knows about; a tree that installs the hook more
+        # than once (reported through the hook count of the offending call) must not leak the
+        # others into the next history
+        base = self.base_hooks
+        if len(sys.path_hooks) != len(base):
+            sys.path_hooks[:] = [h for h in sys.path_hooks if any(h is b for b in base)]
+            sys.path_importer_cache.clear()
 
     def pristine(self):
         s = self.snapshot()
@@ -433,10 +440,6 @@ def parse_label(label):
     raise ValueError(label)
 
 
-def call_of_last(last):
-    return (last["op"], tuple(tuple(p) for p in last["ps"]), conf_key(last["c"]))
-
-
 # ====================================================================== R2: graph replay
 class G:
     """a dumped state graph prepared for replay (built in the parent, inherited by forks)."""
@@ -469,10 +472,6 @@ _SEED = 0
 NSHARDS = 16
 
 
-def fresh_fmt(c):
-    return fmt_conf(c)
-
-
 def _expect_exc(out):
     return "none" if out == "ok" else PUBLIC_EXC
 
@@ -491,7 +490,7 @@ def _check_edge(real, g, ei, prefix, variant):
     if got_exc != _expect_exc(out):
         mism["exc"] = [got_exc, _expect_exc(out)]
     if fresh != g.internal[t][1]:
-        mism["root"] = [fresh_fmt(fresh), fmt_conf(g.internal[t][1])]
+        mism["root"] = [fmt_conf(fresh), fmt_conf(g.internal[t][1])]
     if proj != g.proj[t]:
         mism["lookup"] = [(dotted(n), fmt_conf(a), fmt_conf(b)) for n, a, b in zip(g.names, proj, g.proj[t]) if a != b][:6]
     if (hooks >= 1) != g.hook[t] or hooks > 1:
@@ -628,6 +627,9 @@ def classify(call, out, rec):
             sym = "lookup-differs"
         else:
             sym = None
+        if "exc" in mism:
+            keys.append(({"clause": "outcome", "api": api, "want": mism["exc"][1], "got": mism["exc"][0].split(":")[0]},
+                         f"{api}: outcome {mism['exc'][0]} where C06 demands {mism['exc'][1]}"))
         if sym:
             keys.append(({"clause": "exit-restores", "api": api, "symptom": sym,
                           "block_conf_prehookable": rec.get("block_prehk")},
@@ -676,7 +678,9 @@ def replay_graph(rep, prep, pk, label, seed):
             rep.spec_drift(f"graph {label}: internal registry differs from ClawRegistry.tla in {rec['hidden']} after "
                            f"{fmt_hist(hist)} (public observables agree)")
             continue
-        for key, summary in classify(call, out, rec):
+        keys = classify(call, out, rec) or [({"clause": "other", "api": api_name(call), "differs": sorted(rec["mism"])},
+                                             f"{api_name(call)}: real observables differ from ClawRegistry.tla")]
+        for key, summary in keys:
             rep.violation(key, f"{summary}.  History: {fmt_hist(hist)}.  Real vs ClawRegistry.tla: "
                           f"{json.dumps(rec['mism'])}; registry parts changed by the call: {rec['changed']}",
                           {"kind": "history", "history": [list(c) for c in hist], "seed": seed, "graph": label,
